@@ -91,6 +91,27 @@ def ensure_kernels_h(log):
     return ["-I" + os.path.join(gen, "include")]
 
 
+def ensure_kernel_signatures(log):
+    """src/awkward/_kernel_signatures.py is an untracked generated file too (needed to import the Python layer)"""
+    ks = os.path.join(REPO, "src", "awkward", "_kernel_signatures.py")
+    if os.path.exists(ks):
+        return ks
+    gen = os.path.join(BUILD, "gen")
+    dst = os.path.join(gen, "scratch", "src", "awkward", "_kernel_signatures.py")
+    if not os.path.exists(dst):
+        scratch = os.path.join(gen, "scratch")
+        subprocess.check_call(["rm", "-rf", scratch])
+        os.makedirs(os.path.join(scratch, "dev"))
+        os.makedirs(os.path.join(scratch, "include", "awkward"))
+        os.makedirs(os.path.join(scratch, "src", "awkward"))
+        for f in ("dev/generate-kernel-signatures.py", "kernel-specification.yml"):
+            subprocess.check_call(["cp", os.path.join(REPO, f), os.path.join(scratch, f)])
+        subprocess.check_call(["/venv/bin/python", "dev/generate-kernel-signatures.py"], cwd=scratch,
+                              stdout=subprocess.DEVNULL)
+        log("regenerated _kernel_signatures.py into build dir")
+    return dst
+
+
 def _compile_all(variant, srcs, extra_inc, hdig, log):
     v = VARIANTS[variant]
     objdir = os.path.join(BUILD, "obj", variant)
@@ -235,6 +256,8 @@ def build_l2(variant="opt", quiet=False):
                     continue
                 os.symlink(os.path.join(src, name), os.path.join(pkg, name))
             os.symlink(os.path.join(HARNESS, "l2", "_ext.py"), os.path.join(pkg, "_ext.py"))
+            if not os.path.exists(os.path.join(pkg, "_kernel_signatures.py")):
+                os.symlink(ensure_kernel_signatures(log), os.path.join(pkg, "_kernel_signatures.py"))
             for f in (lib, base["libawkward"], base["kernels"]):
                 os.symlink(f, os.path.join(pkg, os.path.basename(f)))
             with open(os.path.join(pkgroot, "pkg_resources.py"), "w") as f:
